@@ -436,6 +436,15 @@ pub fn generate(tier: &str, rng: &mut Rng) -> (Vec<String>, bool) {
     crate::cases::add_leveled(&mut out, 11, 1024, &["xs", "ys"]);
     // the same requests at scales 2^-12 .. 2^-15: variances a few orders of magnitude above EPS
     crate::cases::add_scaled(&mut out, 9, &[12, 13, 14, 15], &["xs", "ys"]);
+    // … and far below it (2^-27 ~ 7e-9, 2^-33): the regressions have no variance floor, so an
+    // absolute threshold on a denominator shows as NaN against the exact value; both series, then
+    // the second (the regressor) alone
+    let n0 = out.len();
+    crate::cases::add_scaled(&mut out, 7, &[27, 33], &["xs", "ys"]);
+    let mut only_y: Vec<String> = out[..n0].to_vec();
+    let m0 = only_y.len();
+    crate::cases::add_scaled(&mut only_y, 11, &[27, 30], &["ys"]);
+    out.extend(only_y.drain(m0..));
     (out, true)
 }
 
@@ -447,7 +456,7 @@ Exhaustive streams: (A) every pair of equal-length series over {{null,0,1,2}}^2 
 (C) every pair of series of length {} over the 5 positions {{(null,1),(2,null),(0,0),(1,2),(2,1)}} (independent null patterns, a non-collinear triple), every window 1..=len+{}, min_periods {}; \
 (D) trend family: every series over {} up to length {}, every window 1..=len+2, every min_periods. \
 Random stream: lengths up to {}, values k/8 with |k|<=64, independent null masks on both series (8 patterns), designs: perfect line, constant x, both constant, tiny alphabet, line + outliers, unstructured; trend: perfect line in the index, constant, tiny alphabet, unstructured. \
-Every output position is compared, so every prefix history is covered. non-trivial = distinct request with >= 2 input elements and >= 1 non-null output.",
+Every 11th request is repeated around the level 1024 (v/128 fluctuations), every 9th at scales 2^-12..2^-15, every 7th at 2^-27 / 2^-33 and every 11th with the second series alone at 2^-27 / 2^-30 (exact in f64 and in the model; no regression has a variance floor). Every output position is compared, so every prefix history is covered. non-trivial = distinct request with >= 2 input elements and >= 1 non-null output.",
         if thorough { 3 } else { 2 },
         if thorough { "" } else { "(B) the same pairs at length 3, windows 1..=4, min_periods 0 (nothing masked); " },
         if thorough { "4 and 5" } else { "4" },
